@@ -26,7 +26,7 @@
    Strings that are not spellings ("T..x", "T.") are outside the quantifier;
    the model shows they are still accepted (malformed_path_accepted). *)
 From SV Require C01.Marshal.
-From SV Require Import Lib.Base Fam.Schema C03.Model C03.Spec C03.BuildProofs C03.SplitProofs C03.PathProofs C03.Link.
+From SV Require Import Lib.Base Fam.Schema C03.Model C03.Spec C03.BuildProofs C03.SplitProofs C03.PathProofs C03.Link C03.Bridge.
 
 (* 1. the whole of create(): name parsing, look-up, path walk, construction *)
 Theorem create_meets_spec : forall W sp,
@@ -149,6 +149,62 @@ Theorem object_vs_dict_request : forall S xstq v d anc,
 Proof. exact object_vs_dict_request_l. Qed.
 Print Assumptions object_vs_dict_request.
 
+(* 7. ONE theorem over both models: the object create() returns for any type of
+   any interface (C03 model), filled in any way - every member the factory left
+   None / [] / a Property replaced by whatever the caller puts there (any value
+   whose own type marks are declared types: text, None, lists, further factory
+   objects), pre-built children kept and filled recursively - is an object that
+   carries its type, and the marshaller (C01 model) builds the same request from
+   it and from the equivalent dict *)
+Theorem filled_object_vs_dict : forall W leaf leaf_attr t d xstq anc,
+  find_type (w_types W) (qn_of t) = Some t ->
+  e_type d = TNamed (c_ns t) (c_name t) ->
+  (forall d' x, exactly_typed (w_types W) d' (leaf d' x) = true) ->
+  let o := build_root W (SComplex t) in
+  let u := fill W leaf leaf_attr t o in
+  (exists fs, u = VObj (Some (qn_of t)) fs) /\
+  C01.Marshal.marshal_elem (w_types W) xstq d anc (untype u) = C01.Marshal.marshal_elem (w_types W) xstq d anc u.
+Proof. exact filled_object_vs_dict_l. Qed.
+Print Assumptions filled_object_vs_dict.
+
+(* the type marks fill writes are the ones the Builder sets: the class of every
+   pre-built member object is the name of the resolved type of its member *)
+Theorem prebuilt_member_carries_declared_type : forall W rec hist it k cls items,
+  member_value W rec hist it = Some (k, PObj cls items) ->
+  exists o i d ch op,
+    it = FE o i d ch op /\
+    ((exists t', resolve_type W (e_type d) = RC t' /\ cls = c_name t') \/
+     (exists n vals, resolve_type W (e_type d) = RS n vals /\ cls = n)).
+Proof. exact prebuilt_member_class. Qed.
+Print Assumptions prebuilt_member_carries_declared_type.
+
+(* and whatever object fill is applied to, its marks are declared types *)
+Theorem fill_marks_declared_types : forall W leaf leaf_attr,
+  (forall d x, exactly_typed (w_types W) d (leaf d x) = true) ->
+  forall o t d,
+    find_type (w_types W) (qn_of t) = Some t ->
+    e_type d = TNamed (c_ns t) (c_name t) ->
+    exactly_typed (w_types W) d (fill W leaf leaf_attr t o) = true.
+Proof. exact fill_exactly_typed. Qed.
+Print Assumptions fill_marks_declared_types.
+
+(* 8. a choice with COMPOUND branches: every declaration below a choice, inside
+   a nested sequence / all / group at any depth, is a choice branch for the
+   specification (and so must be absent from the created object:
+   create_mirrors_type covers such types like any other) *)
+Theorem compound_choice_branch_marked : forall o kids e,
+  In e (s_particle (PC KChoice o kids)) -> match e with SE _ ch _ => ch = true | SWild => True end.
+Proof. exact compound_choice_branch_marked_l. Qed.
+Print Assumptions compound_choice_branch_marked.
+
+(* 9. ElementQuery's deep search (a local element name spelled without its
+   path) only ever finds a local element of that name: the specification makes
+   no claim exactly there *)
+Theorem deep_search_finds_local_names_only : forall W ns nm d,
+  deep_find W ns nm = Some d -> local_named W (ns, nm) = true.
+Proof. exact deep_find_local. Qed.
+Print Assumptions deep_search_finds_local_names_only.
+
 (* ------------------------------------------------------------------ *)
 (* witnesses                                                           *)
 (* ------------------------------------------------------------------ *)
@@ -267,6 +323,62 @@ Example strict_partial_nonvacuous :
                 ((18%N, true), PStr 20)]) /\
   spec_check W_ex2 true (mkSp (RPrefixed s_t s_T) []) (create W_ex2 (render (mkSp (RPrefixed s_t s_T) []))) = true.
 Proof. vm_compute. repeat split; reflexivity. Qed.
+
+(* simpleContent, a compound choice, the deep search:
+   C = sequence(a, choice(b | sequence(c, d) | all(e)), f);  Money = simpleContent + @cur default;
+   Holder = sequence(m : Money);  C is listed in schema.all *)
+Definition s_C : str := [67]%N.
+Definition s_a : str := [97]%N.
+Definition s_cc : str := [99;99]%N.
+Definition s_f : str := [102]%N.
+Definition s_Money : str := [77]%N.
+Definition s_Holder : str := [72]%N.
+Definition W_ex3 : wsdl :=
+  mkWsdl
+    [mkC 30 1 None
+         [PC KSeq false [PE (mkE 31 1 true TBuiltin false false false None);
+                         PC KChoice false [PE (mkE 32 1 true TBuiltin false false false None);
+                                           PC KSeq false [PE (mkE 33 1 true TBuiltin false false false None);
+                                                          PE (mkE 34 1 true (TNamed 1 37) false false false None)];
+                                           PC KAll false [PE (mkE 35 1 true TBuiltin false false false None)]];
+                         PE (mkE 36 1 true TBuiltin false false false None)]] [];
+     mkC 37 1 None [] [mkA 38 false (Some 20%N)];
+     mkC 39 1 None [PC KSeq false [PE (mkE 40 1 true (TNamed 1 37) false false false None)]] []]
+    [] [] s_urn [(s_t, s_urn)] [(s_urn, 1%N)]
+    [(s_C, 30%N); (s_a, 31%N); (s_cc, 33%N); (s_f, 36%N); (s_Money, 37%N); (s_Holder, 39%N); (s_value, 4%N)]
+    [(1%N, 37%N)] [(1%N, 30%N)].
+
+Example new_constructs_nonvacuous :
+  wf_names W_ex3 = true /\ wf_refs W_ex3 = true /\
+  (* a simpleContent type: "value", then the attributes *)
+  create W_ex3 (render (mkSp (RPlain s_Money) [])) = ROk (PObj 37 [((4%N, false), PNone); ((38%N, true), PStr 20)]) /\
+  create W_ex3 (render (mkSp (RPlain s_Holder) [])) =
+    ROk (PObj 39 [((40%N, false), PObj 37 [((4%N, false), PNone); ((38%N, true), PStr 20)])]) /\
+  (* the compound branches of the choice are not pre-populated *)
+  create W_ex3 (render (mkSp (RPlain s_C) [])) = ROk (PObj 30 [((31%N, false), PNone); ((36%N, false), PNone)]) /\
+  spec_check W_ex3 true (mkSp (RPlain s_C) []) (create W_ex3 (render (mkSp (RPlain s_C) []))) = true /\
+  (* the deep search finds "a" (directly in the first container of C) and not "cc" (nested): no claim either way *)
+  create W_ex3 (render (mkSp (RPlain s_a) [])) = ROk (PObj 31 []) /\
+  create W_ex3 (render (mkSp (RPlain s_cc) [])) = RTypeNotFound /\
+  designate W_ex3 (mkSp (RPlain s_a) []) = [DNoClaim] /\
+  designate W_ex3 (mkSp (RPlain s_cc) []) = [DNoClaim].
+Proof. vm_compute. repeat split; reflexivity. Qed.
+
+(* the object create() returns for T, filled with texts, as the marshaller sees
+   it: the pre-built child carries its type like the object itself *)
+Example filled_object_nonvacuous :
+  let leaf := fun (_ : edecl) (_ : pv) => VText 7 in
+  let u := fill W_ex (fun _ _ => VText 7) (fun _ _ => VText 9)
+                (mkC 10 1 None [] []) (PObj 10 []) in
+  fill W_ex leaf (fun _ _ => VText 9)
+       (match find_type (w_types W_ex) (1, 10) with Some t => t | None => mkC 0 0 None [] [] end)
+       (build_root W_ex (match find_named W_ex (1, 10) with Some s => s | None => SAny end)) =
+  VObj (Some (1, 10))
+       [((15, false), VText 7);
+        ((11, false), VObj (Some (1, 10)) [((15, false), VText 7); ((12, false), VText 7); ((18, true), VText 9)]);
+        ((12, false), VText 7);
+        ((18, true), VText 9)].
+Proof. vm_compute. reflexivity. Qed.
 
 (* a typed object nested in a typed object, against the nested dicts *)
 Example object_vs_dict_nonvacuous :
